@@ -15,8 +15,22 @@
 //     (lambda 0.9..1, diagonal load 1e-2..1e4), lengths 2..64, real and complex               C12:not-converged
 //   real RLS == exponentially weighted, diagonally regularised least squares (normal equations solved by
 //     Cholesky in long double; locked samples do not enter the sums), at check points of short horizons C12:rls-not-wls
+//   long single calls (one process() call of more than 2^16 / 2^17 / 2^18 samples, exact multiples of 49152 / 65536, the long
+//     call first or after small ones, a locked long call, rejected long calls in between): every per-call oracle above, the
+//     reference recursion over the whole call, convergence, and BIT-identity of y, e, coeffs() with the same stream fed in
+//     small frames to a second filter                                                         C12:framing-dependence
+//   scale classes: input at absolute scales 1e-300 .. 1e100 (1e140 for RLS with the matching diagonal load), unknown system
+//     at 1e-8 / 1 / 1e8, step sizes from denormal to 2 (NLMS) / 1e-300 .. 0.9 of the stable bound (LMS), leakage 0 .. 1,
+//     forgetting 0.9 .. 1 incl. 1 - 2^-53, exact-zero / negative-zero runs longer than the delay line, denormal and
+//     power-of-two samples: every per-call oracle + reference recursion (relative; absolute floor 1e-280)
+//   NLMS, leak 1, noise-free: the normalised misalignment never increases from call to call     C12:misalignment-increased
+//   copies (copy-construct, vector(n, proto), copy-assign, returned temporary) taken mid-stream continue bit-identically
+//     to an uncopied filter while the original is fed other data                                C12:copy-differs
+//   a Result kept alive is not changed by later calls                                           C12:result-aliased
+//   rejected calls (size mismatch, also long / empty-vs-non-empty / first call) interleaved: later calls as if never made
 // CORR: the scenarios are replayed by the Lean model (Model/Adaptive.lean) through dspdriver_c12:
-//     tags `lms` / `rls`, full outputs (y, e, coeffs after every call) or, for long runs, the final coeffs only.
+//     tags `lms` / `rls`, full outputs (y, e, coeffs after every call) or, for long runs, the final coeffs only (mode 1)
+//     or every 4093rd and the last y, e of each call plus the final coeffs (mode 2, the long single calls).
 #include "common.hpp"
 #include <algorithm>
 #include <complex>
@@ -66,13 +80,56 @@ static std::string pjson(const Params& p, int cx, uint64_t cseed) {
 template<class T> struct Impl {
     std::unique_ptr<LmsFilter<T>> lms;
     std::unique_ptr<RlsFilter<T>> rls;
+    bool via_temp = false;   // operands passed as temporaries built from slices, result bound to a const reference
+    // the Result of the previous call is kept alive (moved, same storage) next to a bit copy: later calls must not change it
+    base_array<T> keep_y, keep_e;
+    std::vector<T> snap_y, snap_e;
+    bool aliased = false;
     explicit Impl(const Params& p) {
         if (p.kind == K_RLS) rls.reset(new RlsFilter<T>(p.L, p.lam, p.delta));
         else lms.reset(new LmsFilter<T>(p.L, p.mu, p.kind == K_NLMS ? LmsType::NLMS : LmsType::LMS, p.leak));
     }
+    // copies of the filter object; style 0 copy-construct, 1 vector(n, proto), 2 copy-assign over a used filter of another
+    // configuration, 3 returned temporary
+    Impl(const Impl& o, int style, vh::Rng& r) {
+        via_temp = o.via_temp;
+        if (o.lms) lms.reset(copy_of(*o.lms, style, r));
+        if (o.rls) rls.reset(copy_of(*o.rls, style, r));
+    }
+    static LmsFilter<T>* other(const LmsFilter<T>&, int L) { return new LmsFilter<T>(L, 0.37, LmsType::NLMS, 0.5); }
+    static RlsFilter<T>* other(const RlsFilter<T>&, int L) { return new RlsFilter<T>(L, 0.93, 7.0); }
+    template<class F> static F* copy_of(const F& src, int style, vh::Rng& r) {
+        switch (style) {
+        case 0: return new F(src);
+        case 1: { std::vector<F> v(3, src); return new F(v[r.range(0, 2)]); }
+        case 2: {
+            const int L2 = r.range(2, 9);
+            F* f = other(src, L2);
+            base_array<T> gx(L2 + 3), gd(L2 + 3);
+            for (int i = 0; i < gx.size(); ++i) { rnd(r, gx[i]); rnd(r, gd[i]); }
+            f->process(gx, gd);
+            f->set_lock_coeffs(true);
+            *f = src;
+            return f;
+        }
+        default: { auto mk = [&]() { F t(src); return t; }; return new F(mk()); }
+        }
+    }
     void process(const base_array<T>& x, const base_array<T>& d, base_array<T>& y, base_array<T>& e) {
-        if (rls) { auto r = rls->process(x, d); y = r.y; e = r.e; }
-        else { auto r = (*lms)(x, d); y = r.y; e = r.e; }
+        const int n = x.size();
+        base_array<T> ny, ne;
+        if (via_temp && n > 0 && d.size() == n) {
+            if (rls) { const auto& r = rls->process(x.slice(0, n), base_array<T>(d)); y = r.y; e = r.e; ny = r.y; ne = r.e; }
+            else { const auto& r = (*lms)(base_array<T>(x), d.slice(0, n)); y = r.y; e = r.e; ny = r.y; ne = r.e; }
+        } else if (rls) { auto r = rls->process(x, d); y = r.y; e = r.e; ny = std::move(r.y); ne = std::move(r.e); }
+        else { auto r = (*lms)(x, d); y = r.y; e = r.e; ny = std::move(r.y); ne = std::move(r.e); }
+        if (keep_y.size() != (int)snap_y.size() || keep_e.size() != (int)snap_e.size()) aliased = true;
+        for (int i = 0; i < keep_y.size() && !aliased; ++i) aliased = !same_bits(keep_y[i], snap_y[i]);
+        for (int i = 0; i < keep_e.size() && !aliased; ++i) aliased = !same_bits(keep_e[i], snap_e[i]);
+        keep_y = std::move(ny);
+        keep_e = std::move(ne);
+        snap_y.assign(keep_y.begin(), keep_y.end());
+        snap_e.assign(keep_e.begin(), keep_e.end());
     }
     void lock(bool f) { if (rls) rls->set_lock_coeffs(f); else lms->set_lock_coeffs(f); }
     bool locked() const { return rls ? rls->coeffs_locked() : lms->coeffs_locked(); }
@@ -147,6 +204,10 @@ template<class T> struct Frame {
 // comparison with the reference recursion: LMS/NLMS relative 1e-9; RLS relative 1e-12 x kappa, kappa = running max of
 // ||P||_F ||R||_F (conditioning of the weighted Gram matrix, evaluated in the reference)
 static const LD TOL_LMS = 1e-9L, TOL_RLS = 1e-12L;
+// absolute floor of the reference comparisons: next to the underflow threshold (scale classes 1e-150, 1e-300) products become
+// denormal and no relative statement holds; there the bit-exact correspondence with the model (CORR) is the check
+static const LD ABS_FLOOR = 1e-280L;
+static const int DIGEST_STRIDE = 4093;
 static const LD TOL_WLS_FWD = 1e-7L, TOL_WLS_BWD = 1e-9L;
 static long long worst_wls_fwd_e15 = 0, worst_rls_out_e18 = 0, worst_rls_coef_e18 = 0;
 static long long worst_ref_out_e15 = 0, worst_ref_coef_e15 = 0, worst_fir_ratio_e3 = 0, worst_wls_e15 = 0, worst_mis_e12 = 0;
@@ -180,18 +241,57 @@ static void fir_at(const std::vector<LC>& c, const std::vector<LC>& hist, size_t
     for (size_t j = 0; j < c.size() && j <= k; ++j) { v += c[j] * hist[k - j]; mag += std::abs(c[j]) * std::abs(hist[k - j]); }
 }
 
+// CORR mode 2: every DIGEST_STRIDE-th and the last element
+template<class T> static base_array<T> digest(const base_array<T>& a) {
+    std::vector<T> v;
+    const int n = a.size();
+    for (int k = 0; k < n; k += DIGEST_STRIDE) v.push_back(a[k]);
+    if (n > 0 && (n - 1) % DIGEST_STRIDE != 0) v.push_back(a[n - 1]);
+    base_array<T> r((int)v.size());
+    for (size_t i = 0; i < v.size(); ++i) r[i] = v[i];
+    return r;
+}
+
+// captured outputs of a scenario (all accepted calls concatenated) for bit comparisons between scenarios
+template<class T> struct Cap {
+    std::vector<T> y, e;
+    std::vector<T> c;
+    bool complete = true;
+};
+struct Opt {
+    const std::vector<LC>* h = nullptr;   // desired = this unknown system, noise-free: NLMS with leak 1 must not increase the misalignment
+    bool no_ref = false;                  // skip the reference recursion (the scenario is bit-compared with one that ran it)
+    bool via_temp = false;
+    unsigned watch = 120;
+    // copy test: before frame `copy_at` the filter is replaced by a copy of itself (style), the original then processes
+    // other data and is destroyed
+    int copy_at = -1, copy_style = 0;
+};
+
+static LD misalign(const std::vector<LC>& h, const std::vector<LC>& c) {
+    LD num = 0, den = 0;
+    for (size_t j = 0; j < h.size(); ++j) { num += std::norm(c[j] - h[j]); den += std::norm(h[j]); }
+    return num / std::max(den, 1e-4000L);
+}
+
 // runs one scenario on the implementation with all per-call oracles; emits the CORR line if mode >= 0.
 // tolref: relative tolerance of the comparison with the reference recursion (<= 0: skip that comparison)
 template<class T>
-static void run_scenario(const Params& p, const std::vector<Frame<T>>& fr, uint64_t cseed, int corr_mode, LD tolref, const char* what) {
+static void run_scenario(const Params& p, const std::vector<Frame<T>>& fr, uint64_t cseed, int corr_mode, LD tolref, const char* what,
+                         Cap<T>* cap = nullptr, const Opt& opt = Opt()) {
     const std::string kn = KN[p.kind];
     const std::string js0 = pjson(p, Tr<T>::cx, cseed) + ",\"scenario\":\"" + what + "\",\"frames_lock_nx_nd\":" + frames_json(fr);
     vh::set_current("C12:hang-or-crash:" + kn, js0 + "}");
-    vh::watch(120);
-    Impl<T> f(p);
+    vh::watch(opt.watch);
+    std::unique_ptr<Impl<T>> fp(new Impl<T>(p));
+    fp->via_temp = opt.via_temp;
     Ref ref(p);
     std::vector<LC> hist;
     std::string rhs;
+    if (opt.no_ref) tolref = 0;
+    const bool lock_always = (cseed & 1) != 0;
+    bool cur_lock = false;
+    out.stat(lock_always ? "lock_set_before_every_call" : "lock_set_on_change_only");
     LD scale = 1e-300L;
     bool failed_ref = false;
     out.stat(std::string("scen_") + kn + (Tr<T>::cx ? "_cx" : "_re"));
@@ -200,7 +300,23 @@ static void run_scenario(const Params& p, const std::vector<Frame<T>>& fr, uint6
         const Frame<T>& F = fr[fi];
         const int n = F.x.size();
         const std::string js = js0 + ",\"frame\":" + std::to_string(fi);
-        f.lock(F.lock);
+        if ((int)fi == opt.copy_at) {
+            vh::Rng cr(cseed ^ 0x5bd1e995u);
+            std::unique_ptr<Impl<T>> cp(new Impl<T>(*fp, opt.copy_style, cr));
+            if (cp->locked() != fp->locked()) out.fail("C12:copy-differs:" + kn, js + ",\"what\":\"lock flag\"}");
+            // the original goes on with other data, then dies; the copy must not notice
+            base_array<T> gx(p.L + 5), gd(p.L + 5), gy, ge;
+            for (int i = 0; i < gx.size(); ++i) { rnd(cr, gx[i]); rnd(cr, gd[i]); }
+            fp->lock(false);
+            fp->process(gx, gd, gy, ge);
+            fp = std::move(cp);
+            out.stat("copies_style_" + std::to_string(opt.copy_style));
+        }
+        Impl<T>& f = *fp;
+        // set_lock_coeffs before every call, or (every other scenario) only when the schedule changes - then a call in between,
+        // accepted or rejected, must not have touched the flag
+        if (lock_always || F.lock != cur_lock) f.lock(F.lock);
+        cur_lock = F.lock;
         ref.locked = F.lock;
         if (f.locked() != F.lock) out.fail("C12:lock-flag:" + kn, js + "}");
         const base_array<T> c0 = f.coeffs();
@@ -218,6 +334,9 @@ static void run_scenario(const Params& p, const std::vector<Frame<T>>& fr, uint6
             if (!threw || !same) out.fail("C12:size-mismatch:" + kn, js + ",\"threw\":" + (threw ? "1" : "0") + "}");
             out.stat("frames_mismatch");
             if (corr_mode == 0) rhs += std::string(threw ? " ERR " : " NOERR ") + vh::hxs(c1);
+            if (corr_mode == 2) rhs += threw ? " ERR" : " NOERR";
+            out.stat(F.x.size() > 65536 || F.d.size() > 65536 ? "frames_mismatch_long" : F.x.size() == 0 || F.d.size() == 0 ? "frames_mismatch_one_empty" : "frames_mismatch_short");
+            if (fi == 0) out.stat("frames_mismatch_first_call");
             continue;
         }
         try {
@@ -225,13 +344,22 @@ static void run_scenario(const Params& p, const std::vector<Frame<T>>& fr, uint6
         } catch (const std::exception& ex) {
             out.fail("C12:threw:" + kn, js + ",\"what\":\"" + std::string(ex.what()).substr(0, 80) + "\"}");
             if (corr_mode == 0) rhs += " ERR " + vh::hxs(f.coeffs());
+            if (corr_mode == 2) rhs += " ERR";
+            if (cap) cap->complete = false;
             continue;
         }
         const base_array<T> c1 = f.coeffs();
+        if (cap) { cap->y.insert(cap->y.end(), y.begin(), y.end()); cap->e.insert(cap->e.end(), e.begin(), e.end()); }
+        if (n > 262144) out.stat("frame_gt_2^18"); else if (n > 131072) out.stat("frame_gt_2^17"); else if (n > 65536) out.stat("frame_gt_2^16");
+        if (n > 65536 && n % 65536 == 0) out.stat("frame_multiple_of_65536");
+        if (n > 65536 && n % 49152 == 0) out.stat("frame_multiple_of_49152");
+        if (n > 65536) out.stat(fi == 0 ? "long_frame_first_call" : "long_frame_after_others");
+        if (n > 65536 && F.lock) out.stat("long_frame_locked");
         out.stat(F.lock ? "frames_locked" : "frames_adapting");
         out.stat(n == 0 ? "frame_n0" : n == 1 ? "frame_n1" : n < p.L - 1 ? "frame_lt_len-1" : n == p.L - 1 ? "frame_eq_len-1" : n <= p.L ? "frame_eq_len" : "frame_gt_len");
         out.stat("samples", n);
         if (corr_mode == 0) rhs += " " + vh::hxs(y) + " " + vh::hxs(e) + " " + vh::hxs(c1);
+        if (corr_mode == 2) rhs += " " + vh::hxs(digest(y)) + " " + vh::hxs(digest(e));
         if (y.size() != n || e.size() != n) { out.fail("C12:result-size:" + kn, js + "}"); break; }
         // --- e = d - y exactly; finiteness
         for (int k = 0; k < n; ++k) {
@@ -259,13 +387,14 @@ static void run_scenario(const Params& p, const std::vector<Frame<T>>& fr, uint6
                              js + ",\"k\":" + std::to_string(k) + ",\"err\":" + vh::jnum((double)err) + ",\"bound\":" + vh::jnum((double)bound) + "}");
                 out.stat(F.lock ? "chk_locked_fir" : "chk_apriori_snapshot");
             }
+            if (opt.no_ref) continue;
             LC yr, er;
             ref.step(toL(F.x[k]), toL(F.d[k]), yr, er);
             scale = std::max(scale, std::max(std::abs(toL(F.d[k])), std::abs(yr)));
             if (tolref > 0 && !failed_ref) {
                 const LD err = std::max(std::abs(yr - toL(y[k])), std::abs(er - toL(e[k])));
-                upd(p.kind == K_RLS ? worst_rls_out_e18 : worst_ref_out_e15, err / (scale * ref.kappa), p.kind == K_RLS ? 1e-18L : 1e-15L);
-                if (!(err <= tolref * ref.kappa * scale)) {
+                if (err > ABS_FLOOR) upd(p.kind == K_RLS ? worst_rls_out_e18 : worst_ref_out_e15, err / (scale * ref.kappa), p.kind == K_RLS ? 1e-18L : 1e-15L);
+                if (!(err <= tolref * ref.kappa * scale + ABS_FLOOR)) {
                     failed_ref = true;
                     out.fail("C12:reference-output:" + kn, js + ",\"k\":" + std::to_string(k) + ",\"err\":" + vh::jnum((double)err) + ",\"scale\":" + vh::jnum((double)scale) + "}");
                 }
@@ -274,16 +403,29 @@ static void run_scenario(const Params& p, const std::vector<Frame<T>>& fr, uint6
         if (tolref > 0 && !failed_ref) {
             LD cs = 1e-300L, ce = 0;
             for (int j = 0; j < p.L; ++j) { cs = std::max(cs, std::abs(ref.c[j])); ce = std::max(ce, std::abs(ref.c[j] - toL(c1[j]))); }
-            upd(p.kind == K_RLS ? worst_rls_coef_e18 : worst_ref_coef_e15, ce / (cs * ref.kappa), p.kind == K_RLS ? 1e-18L : 1e-15L);
-            if (!(ce <= tolref * ref.kappa * cs)) {
+            if (ce > ABS_FLOOR) upd(p.kind == K_RLS ? worst_rls_coef_e18 : worst_ref_coef_e15, ce / (cs * ref.kappa), p.kind == K_RLS ? 1e-18L : 1e-15L);
+            if (!(ce <= tolref * ref.kappa * cs + ABS_FLOOR)) {
                 failed_ref = true;
                 out.fail("C12:reference-coeffs:" + kn, js + ",\"err\":" + vh::jnum((double)ce) + ",\"scale\":" + vh::jnum((double)cs) + "}");
             }
         }
+        // --- NLMS, leak 1, noise-free desired signal of the system h: the misalignment does not increase (exact over R and C for
+        //     0 < mu < 2, every sample; here from call to call, within rounding)
+        if (opt.h && p.kind == K_NLMS && p.leak == 1 && p.mu >= 0 && p.mu <= 2 && !F.lock) {
+            std::vector<LC> c1L(p.L);
+            for (int j = 0; j < p.L; ++j) c1L[j] = toL(c1[j]);
+            const LD m0 = misalign(*opt.h, c0L), m1 = misalign(*opt.h, c1L);
+            out.stat("chk_misalignment_monotone");
+            if (!(m1 <= m0 * (1 + 1e-9L) + 1e-24L))
+                out.fail("C12:misalignment-increased:" + kn, js + ",\"before\":" + vh::jnum((double)m0) + ",\"after\":" + vh::jnum((double)m1) + "}");
+        }
+        if (f.aliased) { out.fail("C12:result-aliased:" + kn, js + "}"); f.aliased = false; }
     }
     vh::unwatch();
     vh::clear_current();
-    if (corr_mode == 1) rhs = " " + vh::hxs(f.coeffs());
+    if (cap) { const base_array<T> cN = fp->coeffs(); cap->c.assign(cN.begin(), cN.end()); }
+    if (corr_mode == 2) rhs += " " + vh::hxs(fp->coeffs());
+    if (corr_mode == 1) rhs = " " + vh::hxs(fp->coeffs());
     if (corr_mode >= 0) out.corr(corr_lhs(p, fr, corr_mode), rhs.empty() ? "" : rhs.substr(1));
     out.sample(js0 + "}");
 }
@@ -344,17 +486,52 @@ static std::vector<int> gen_framing(vh::Rng& r, int total, int L, int style) {
     return v;
 }
 
-// input kinds of the arbitrary-pair scenarios
-static const char* XK[] = {"white", "white-scaled", "with-zero-stretches", "impulsive", "dc"};
+// input kinds of the arbitrary-pair scenarios (5..8: the scale-class scenarios)
+static const char* XK[] = {"white", "white-scaled", "with-zero-stretches", "impulsive", "dc",
+                           "zero-runs-longer-than-delay-line", "negative-zero-runs", "denormals-mixed-in", "powers-of-two"};
+static inline void negzero(real_t& v, int) { v = -0.0; }
+static inline void negzero(cmplx_t& v, int which) { v.re = (which & 1) ? -0.0 : 0.0; v.im = (which & 2) ? -0.0 : 0.0; }
+static inline void pow2(vh::Rng& r, real_t& v, double s2) { v = std::ldexp(r.coin() ? s2 : -s2, r.range(-1, 1)); }
+static inline void pow2(vh::Rng& r, cmplx_t& v, double s2) { pow2(r, v.re, s2); if (r.coin()) v.im = 0; else pow2(r, v.im, s2); }
+// a rejected call: len(x) != len(d)
+template<class T> static Frame<T> gen_mismatch(vh::Rng& r, bool lock, int L, int style) {
+    Frame<T> M;
+    M.lock = lock;
+    M.mismatch = true;
+    int nx, nd;
+    if (style <= 1) { nx = r.range(0, 4); nd = nx + 1 + r.range(0, 2); }
+    else {
+        switch (r.range(0, 3)) {
+        case 0: nx = 0; nd = r.range(1, 2 * L + 2); break;                 // one side empty
+        case 1: nx = r.range(1, 2 * L + 5); nd = nx + 1; break;             // off by one
+        case 2: nx = r.range(L, 3 * L + 5); nd = nx - r.range(1, L); break; // differs by up to the delay-line length
+        default: nx = r.range(0, 4); nd = nx + 1 + r.range(0, 2); break;
+        }
+    }
+    M.x = base_array<T>(nx);
+    M.d = base_array<T>(nd);
+    if (r.coin()) std::swap(M.x, M.d);
+    for (int k = 0; k < M.x.size(); ++k) rnd(r, M.x[k]);
+    for (int k = 0; k < M.d.size(); ++k) rnd(r, M.d[k]);
+    return M;
+}
+// dkind: 0 noise-free output of the unknown system, 1 noisy, 2 unrelated, 3 exact zeros, 4 negative zeros
 template<class T>
-static std::vector<Frame<T>> gen_frames(vh::Rng& r, const Params& p, int total, int fstyle, int xkind, double xscale, int dkind, bool locks, bool mism) {
+static std::vector<Frame<T>> gen_frames(vh::Rng& r, const Params& p, int total, int fstyle, int xkind, double xscale, int dkind, bool locks, bool mism,
+                                        double hscale = 1, int mism_style = 1, std::vector<LC>* h_out = nullptr) {
     std::vector<int> sz = gen_framing(r, total, p.L, fstyle);
     int msys;
     std::vector<LC> h = gen_system<T>(r, p.L, msys);
+    if (hscale != 1) for (auto& v : h) v *= LD(hscale);
+    if (h_out) *h_out = h;
     std::vector<LC> hist;
     std::vector<Frame<T>> fr;
     bool lock = false;
     bool zero_run = false;
+    int zleft = 0;
+    const double xs = (xkind == 1 || xkind >= 4) ? xscale : 1;
+    const double s2 = std::ldexp(1.0, (int)std::lround(std::log2(xs)));
+    if (mism && mism_style >= 2 && r.range(0, 2) == 0) fr.push_back(gen_mismatch<T>(r, lock, p.L, mism_style));   // the first call is rejected
     for (size_t i = 0; i < sz.size(); ++i) {
         Frame<T> F;
         if (locks && r.range(0, 3) == 0) lock = !lock;
@@ -368,7 +545,14 @@ static std::vector<Frame<T>> gen_frames(vh::Rng& r, const Params& p, int total, 
             case 1: rnd(r, v); scl(v, xscale); break;
             case 2: if (r.range(0, 9) == 0) zero_run = !zero_run; if (!zero_run) rnd(r, v); break;
             case 3: if (r.range(0, 7) == 0) { rnd(r, v); scl(v, 4); } break;
-            default: v = T(1); scl(v, xscale); break;
+            case 4: v = T(1); scl(v, xscale); break;
+            case 5: case 6:   // exact zeros in runs of at least len-1 .. 2 len + 3 samples (longer than any internal history)
+                if (zleft == 0 && r.range(0, p.L + 8) == 0) zleft = p.L - 1 + r.range(0, p.L + 4);
+                if (zleft > 0) { --zleft; if (xkind == 6) negzero(v, r.range(0, 3)); }
+                else { rnd(r, v); scl(v, xscale); }
+                break;
+            case 7: rnd(r, v); scl(v, r.range(0, 2) == 0 ? 1e-310 : xscale); break;
+            default: pow2(r, v, s2); break;
             }
             F.x[k] = v;
             hist.push_back(toL(v));
@@ -376,21 +560,13 @@ static std::vector<Frame<T>> gen_frames(vh::Rng& r, const Params& p, int total, 
             for (int j = 0; j < p.L && j < (int)hist.size(); ++j) dv += h[j] * hist[hist.size() - 1 - j];
             T dn; rnd(r, dn);
             if (dkind == 0) fromL(dv, F.d[k]);                       // noise-free system output
-            else if (dkind == 1) { fromL(dv, F.d[k]); scl(dn, 0.1 * (xkind == 1 || xkind == 4 ? xscale : 1)); F.d[k] = F.d[k] + dn; }   // noisy
-            else { scl(dn, (xkind == 1 || xkind == 4 ? xscale : 1)); F.d[k] = dn; }   // unrelated desired signal
+            else if (dkind == 1) { fromL(dv, F.d[k]); scl(dn, 0.1 * xs * hscale); F.d[k] = F.d[k] + dn; }   // noisy
+            else if (dkind == 2) { scl(dn, xs * hscale); F.d[k] = dn; }   // unrelated desired signal
+            else if (dkind == 3) F.d[k] = T{};
+            else negzero(F.d[k], r.range(0, 3));
         }
         fr.push_back(F);
-        if (mism && r.range(0, 6) == 0) {
-            Frame<T> M;
-            M.lock = lock;
-            M.mismatch = true;
-            M.x = base_array<T>(r.range(0, 4));
-            M.d = base_array<T>(M.x.size() + 1 + r.range(0, 2));
-            if (r.coin()) std::swap(M.x, M.d);
-            for (int k = 0; k < M.x.size(); ++k) rnd(r, M.x[k]);
-            for (int k = 0; k < M.d.size(); ++k) rnd(r, M.d[k]);
-            fr.push_back(M);
-        }
+        if (mism && r.range(0, mism_style >= 2 ? 2 : 6) == 0) fr.push_back(gen_mismatch<T>(r, lock, p.L, mism_style));
     }
     return fr;
 }
@@ -420,8 +596,264 @@ template<class T> static void arbitrary_pairs(vh::Rng& top, int count, int maxL,
     }
 }
 
+// ------------------------------------------------------------------------------------------------ scale classes of every numeric input
+static const double SX_LMS[] = {1e-300, 1e-150, 1e-17, 1e-8, 1, 1e8, 1e100};          // absolute input scale
+static const double SX_RLS[] = {1e-300, 1e-140, 1e-17, 1e-8, 1, 1e8, 1e100, 1e140};
+static const double HS[] = {1e-8, 1, 1, 1e8};                                          // scale of the unknown system
+static const double MU_NLMS_X[] = {4.9406564584124654e-324, 2.2250738585072014e-308, 1e-300, 1e-17, 2.220446049250313e-16, 1e-8,
+                                   0.5, 1.0, 1.9999999999999998, 2.0, 0.0, -0.0};
+static const double MU_LMS_F[] = {1e-300, 1e-17, 1e-8, 0.01, 0.3, 0.9, 0.0, -0.0};     // fraction of the stable bound 2 / (3 len power)
+static const double LEAK_X[] = {1.0, 1.0, 0.99999999999999989, 0.5, 1e-8, 1e-300, 0.0};
+static const double LAM_X[] = {1.0, 0.99999999999999989, 0.999999, 0.95, 0.9};
+static const double DELTA0_X[] = {1e-8, 1e-2, 1.0, 1e4, 1e8};                          // diagonal load x input power
+
+template<class T> static void scaled_pairs(vh::Rng& top, int count, int maxL, int corr_every) {
+    for (int it = 0; it < count; ++it) {
+        const uint64_t cseed = top.next();
+        vh::Rng r(cseed);
+        const Kind k = Kind(it % 3);
+        const int xkind = (5 + (it / 3) % 4 == 8 && r.coin()) ? 1 : 5 + (it / 3) % 4;
+        Params p;
+        p.kind = k;
+        p.L = pick_len(r, maxL);
+        const double sx = k == K_RLS ? SX_RLS[r.range(0, 7)] : SX_LMS[r.range(0, 6)];
+        double hs = HS[r.range(0, 3)];
+        const double xpow = (xkind == 8 ? 4.0 : 1.0) * sx * sx;
+        if (k == K_NLMS) { p.mu = MU_NLMS_X[r.range(0, 11)]; p.leak = LEAK_X[r.range(0, 6)]; }
+        if (k == K_LMS) {
+            p.mu = MU_LMS_F[r.range(0, 7)] * std::min(1e300, 2.0 / (3.0 * p.L * std::max(xpow, 1e-320)));
+            p.leak = LEAK_X[r.range(0, 6)];
+        }
+        bool matched = true;
+        if (k == K_RLS) {
+            p.lam = LAM_X[r.range(0, 4)];
+            // the diagonal load scales with 1 / input power (x -> s x, d -> s d, delta -> delta / s^2 leaves the coefficients alone);
+            // at 1e-300 the matching load is not representable: ordinary loads there (everything underflows)
+            matched = sx > 1e-200;
+            p.delta = matched ? DELTA0_X[r.range(0, 4)] / (sx * sx) : DELTAS[r.range(0, 6)];
+            if (sx >= 1e140 && hs > 1) hs = 1;
+        }
+        const int total = r.range(1, 3 * p.L + 24) + (r.coin() ? 2 * p.L + 8 : 0);
+        const int fstyle = r.range(0, 3);
+        const int dkind = r.range(0, 5) == 5 ? 0 : r.range(0, 4);
+        std::vector<LC> h;
+        auto fr = gen_frames<T>(r, p, total, fstyle, xkind, sx, dkind, r.range(0, 2) != 0, r.coin(), hs, 2, &h);
+        out.stat(std::string("xkind_") + XK[xkind]);
+        out.stat("xscale_1e" + std::to_string((int)std::lround(std::log10(sx))));
+        out.stat("dkind_" + std::to_string(dkind));
+        if (k == K_NLMS) out.stat(p.mu == 0 ? "nlms_step_zero" : p.mu < 2.3e-16 ? "nlms_step_below_eps" : p.mu >= 1.9999999999999998 ? "nlms_step_at_2" : "nlms_step_inside");
+        if (k != K_RLS) out.stat(p.leak == 1 ? "leak_1" : p.leak == 0 ? "leak_0" : p.leak > 0.9 ? "leak_1-ulp" : "leak_small");
+        if (k == K_RLS) out.stat(matched ? "rls_load_matched_to_scale" : "rls_load_unmatched");
+        Opt o;
+        if (dkind == 0) o.h = &h;
+        o.via_temp = r.range(0, 3) == 0;
+        run_scenario<T>(p, fr, cseed, (it % corr_every) == 0 ? 0 : -1, k == K_RLS ? TOL_RLS : TOL_LMS, "scale-class", nullptr, o);
+    }
+}
+
+// ------------------------------------------------------------------------------------------------ copies of the stateful objects
+template<class T> static void copy_cases(vh::Rng& top, int count) {
+    for (int it = 0; it < count; ++it) {
+        const uint64_t cseed = top.next();
+        vh::Rng r(cseed);
+        const Kind k = Kind(it % 3);
+        Params p = gen_params(r, k, it % 2 ? 64 : 8, 1.0);
+        const int total = r.range(1, 3 * p.L + 24);
+        auto fr = gen_frames<T>(r, p, total, r.range(0, 3), r.range(0, 3) == 0 ? 2 : 0, 1.0, r.range(0, 2), r.coin(), false);
+        Cap<T> a, b;
+        Opt oa, ob;
+        ob.no_ref = true;
+        ob.copy_at = r.range(0, (int)fr.size() - 1);
+        ob.copy_style = (it / 3) % 4;
+        run_scenario<T>(p, fr, cseed, -1, k == K_RLS ? TOL_RLS : TOL_LMS, "copy-reference", &a, oa);
+        run_scenario<T>(p, fr, cseed, -1, 0, "copy-midstream", &b, ob);
+        out.n_oracle++;
+        bool same = a.complete && b.complete && a.y.size() == b.y.size() && a.e.size() == b.e.size() && a.c.size() == b.c.size();
+        long long at = -1;
+        for (size_t i = 0; same && i < a.y.size(); ++i) if (!same_bits(a.y[i], b.y[i]) || !same_bits(a.e[i], b.e[i])) { same = false; at = (long long)i; }
+        for (size_t i = 0; same && i < a.c.size(); ++i) if (!same_bits(a.c[i], b.c[i])) { same = false; at = -2 - (long long)i; }
+        if (!same)
+            out.fail(std::string("C12:copy-differs:") + KN[k], pjson(p, Tr<T>::cx, cseed) + ",\"scenario\":\"copy-midstream\",\"copy_before_frame\":" + std::to_string(ob.copy_at) +
+                     ",\"copy_style\":" + std::to_string(ob.copy_style) + ",\"first_difference\":" + std::to_string(at) + ",\"frames_lock_nx_nd\":" + frames_json(fr) + "}");
+    }
+}
+
+// ------------------------------------------------------------------------------------------------ long single calls
+// one process() call of `nlong` samples inside a stream (small calls before it unless `first`, small calls after it, optionally
+// rejected long calls around it and a second, locked, long call), against (a) the per-call oracles and the reference recursion
+// over the whole stream, (b) the same stream fed to a second filter in small frames: bit-identical y, e, coeffs()
+// noisy: desired = system output + noise (the adaptation never settles, so every later bit depends on every update - the sharp form
+// of the bit comparison); otherwise noise-free (convergence, misalignment)
+template<class T> static void long_call(vh::Rng& top, Kind k, int L, int nlong, int variant, int corr_mode, bool noisy) {
+    const uint64_t cseed = top.next();
+    vh::Rng r(cseed);
+    Params p;
+    p.kind = k;
+    p.L = L;
+    static const double MU_N[] = {0.25, 0.5, 1.0, 1.5};
+    static const double MU_F[] = {0.1, 0.3, 0.6};
+    static const double LAM_L[] = {0.95, 0.99, 0.999, 1.0};
+    static const double DEL_L[] = {1.0, 10.0, 100.0, 0.1};
+    if (k == K_NLMS) { p.mu = MU_N[r.range(0, 3)]; p.leak = 1; }
+    if (k == K_LMS) { p.mu = MU_F[r.range(0, 2)] * 2.0 / (3.0 * L); p.leak = LEAKS[r.range(0, 4)]; }
+    if (k == K_RLS) { p.lam = LAM_L[r.range(0, 3)]; p.delta = DEL_L[r.range(0, p.lam == 1.0 ? 2 : 3)]; }
+    const bool first = variant & 1, rejected = variant & 2, second_locked = variant & 4;
+    const int dkind = noisy ? 1 : 0;
+    out.stat(noisy ? "long_desired_noisy" : "long_desired_noise_free");
+    int msys;
+    std::vector<LC> h = gen_system<T>(r, L, msys);
+    // exact-zero runs longer than the delay line inside the stream; for RLS bounded so that the covariance (growing by
+    // 1 / lambda per silent sample - inherent to the algorithm) stays below 1e6 x its level
+    const int zmax = (k == K_RLS && p.lam < 1) ? std::max(L + 1, std::min(3000, (int)(13.8 / -std::log(p.lam)))) : 3000;
+    std::vector<LC> hist(L, LC(0));
+    size_t pos = 0;
+    int zleft = 0;
+    auto mk = [&](int n, bool lock) {
+        Frame<T> F;
+        F.lock = lock;
+        F.x = base_array<T>(n);
+        F.d = base_array<T>(n);
+        for (int i = 0; i < n; ++i) {
+            T v{};
+            if (zleft == 0 && r.range(0, 39999) == 0) zleft = r.range(L, zmax);
+            if (zleft > 0) --zleft; else rnd(r, v);
+            F.x[i] = v;
+            hist[pos % L] = toL(v);
+            LC dv(0);
+            for (int j = 0; j < L; ++j) dv += h[j] * hist[(pos + L - j) % L];
+            ++pos;
+            fromL(dv, F.d[i]);
+            if (dkind == 1) { T dn; rnd(r, dn); scl(dn, 0.1); F.d[i] = F.d[i] + dn; }
+        }
+        return F;
+    };
+    auto reject = [&](int nx, int nd, bool lock) {
+        Frame<T> M;
+        M.lock = lock;
+        M.mismatch = true;
+        M.x = base_array<T>(nx);
+        M.d = base_array<T>(nd);
+        for (int i = 0; i < nx; ++i) rnd(r, M.x[i]);
+        for (int i = 0; i < nd; ++i) rnd(r, M.d[i]);
+        return M;
+    };
+    std::vector<Frame<T>> A;
+    if (!first) {
+        A.push_back(mk(r.range(0, 2 * L), false));
+        A.push_back(mk(r.range(1, 300), r.coin()));
+        if (r.coin()) A.push_back(mk(0, false));
+        A.push_back(mk(L - 1, false));
+    }
+    if (rejected) A.push_back(r.coin() ? reject(nlong, nlong - 1, false) : reject(nlong, 0, false));
+    A.push_back(mk(nlong, false));
+    if (rejected) A.push_back(reject(r.range(1, 5), nlong + 1, false));
+    A.push_back(mk(L - 1, false));
+    A.push_back(mk(1, true));
+    A.push_back(mk(r.range(1, 200), false));
+    if (second_locked) {
+        A.push_back(mk(65536 + r.range(1, 70000), true));
+        A.push_back(mk(r.range(1, 2 * L), false));
+    }
+    // the same stream, same lock schedule, in small frames
+    std::vector<Frame<T>> B;
+    for (auto& F : A) {
+        if (F.mismatch) continue;
+        const int n = F.x.size();
+        if (n == 0) { B.push_back(F); continue; }
+        const int style = r.range(0, 3);
+        for (int a = 0; a < n;) {
+            const int m = std::min(n - a, style == 0 ? r.range(1, 2 * L) : style == 1 ? 1000 : r.range(1, 1000));
+            Frame<T> G;
+            G.lock = F.lock;
+            G.x = base_array<T>(F.x.slice(a, a + m));
+            G.d = base_array<T>(F.d.slice(a, a + m));
+            B.push_back(G);
+            a += m;
+        }
+    }
+    Cap<T> ca, cb;
+    Opt oa, ob;
+    oa.watch = ob.watch = 900;
+    if (dkind == 0) oa.h = ob.h = &h;
+    ob.no_ref = true;
+    oa.via_temp = r.range(0, 3) == 0;
+    run_scenario<T>(p, A, cseed, corr_mode, k == K_RLS ? TOL_RLS : TOL_LMS, "long-single-call", &ca, oa);
+    run_scenario<T>(p, B, cseed, -1, 0, "long-single-call-in-small-frames", &cb, ob);
+    const std::string js0 = pjson(p, Tr<T>::cx, cseed) + ",\"scenario\":\"long-single-call\",\"long_call_samples\":" + std::to_string(nlong) +
+                            ",\"frames_lock_nx_nd\":" + frames_json(A);
+    out.n_oracle++;
+    out.stat(std::string("long_") + KN[k] + (Tr<T>::cx ? "_cx" : "_re"));
+    bool same = ca.complete && cb.complete && ca.y.size() == cb.y.size() && ca.e.size() == cb.e.size() && ca.c.size() == cb.c.size();
+    long long at = -1;
+    for (size_t i = 0; same && i < ca.y.size(); ++i) if (!same_bits(ca.y[i], cb.y[i]) || !same_bits(ca.e[i], cb.e[i])) { same = false; at = (long long)i; }
+    for (size_t i = 0; same && i < ca.c.size(); ++i) if (!same_bits(ca.c[i], cb.c[i])) { same = false; at = -2 - (long long)i; }
+    if (!same)
+        out.fail(std::string("C12:framing-dependence:") + KN[k], js0 + ",\"first_differing_stream_sample\":" + std::to_string(at) + "}");
+    // convergence (noise-free, white input with silent stretches): NLMS and RLS
+    if (dkind == 0 && k != K_LMS && ca.c.size() == (size_t)L) {
+        std::vector<LC> c(L);
+        for (int j = 0; j < L; ++j) c[j] = toL(ca.c[j]);
+        const LD mis = misalign(h, c);
+        upd(worst_mis_e12, mis, 1e-12L);
+        out.stat("chk_long_converged");
+        if (!(mis < 1e-6L)) out.fail(std::string("C12:not-converged:") + KN[k], js0 + ",\"misalignment\":" + vh::jnum((double)mis) + "}");
+    }
+}
+
+static int long_size(vh::Rng& r, int cls) {
+    switch (cls) {
+    case 0: return 131072 + r.range(1, 8192);
+    case 1: return 262144 + r.range(1, 8192);
+    case 2: return 3 * 65536;
+    case 3: return 3 * 49152;
+    case 4: return 131073;
+    case 5: return 65536 + r.range(1, 8192);
+    case 6: return 262145;
+    case 7: return 65537;
+    case 8: return 2 * 65536;
+    case 9: return 2 * 49152;
+    case 10: return 6 * 49152;
+    case 11: return 5 * 65536;
+    default: return 1048576 + r.range(1, 8192);
+    }
+}
+
+template<class T> static void long_calls(vh::Rng& top, bool thorough, uint64_t seed) {
+    static const int LQ[] = {2, 3, 5, 8, 16};
+    if (!thorough) {
+        // quick: two long calls per filter and type - one just above 2^17 (RLS: above 2^16), one above 2^18 or a large multiple of
+        // 49152 / 65536 (RLS: above 2^17, len 2), one of them with a noisy desired signal; the size class rotates with the seed;
+        // one of the first kind goes through the model (real LMS or NLMS)
+        static const int CL_A[] = {0, 3, 4}, CL_B[] = {1, 2, 6, 10}, CL_RA[] = {5, 7, 9}, CL_RB[] = {0, 8, 4};
+        for (int k = 0; k < 3; ++k) {
+            const int i = int((seed + k + 3 * Tr<T>::cx) % 60);
+            const bool noisy = (seed + k + Tr<T>::cx) % 2 == 0;
+            const bool corr = Tr<T>::cx == 0 && k == int(seed % 2);
+            if (k == K_RLS) {
+                long_call<T>(top, K_RLS, 2 + i % 3, long_size(top, CL_RA[i % 3]), i % 8, -1, noisy);
+                long_call<T>(top, K_RLS, 2, long_size(top, CL_RB[i % 3]), (i + 3) % 8, -1, !noisy);
+            } else {
+                long_call<T>(top, Kind(k), LQ[i % 5], corr ? 131072 + top.range(4096, 8192) : long_size(top, CL_A[i % 3]), corr ? i % 4 : i % 8, corr ? 2 : -1, noisy);
+                long_call<T>(top, Kind(k), LQ[(i + 2) % 5], long_size(top, CL_B[i % 4]), (i + 3) % 8, -1, !noisy);
+            }
+        }
+        return;
+    }
+    int n = 0;
+    for (int k = 0; k < 3; ++k)
+        for (int cls = 0; cls <= 12; ++cls) {
+            if (k == K_RLS && cls == 12) continue;
+            const int L = k == K_RLS ? (cls == 7 ? 8 : cls == 9 ? 6 : 2 + cls % 4) : (cls == 1 ? 64 : cls == 5 ? 33 : LQ[(cls + k) % 5]);
+            // through the model (digest): real LMS above 2^17, real RLS above 2^16, complex NLMS above 2^17
+            const bool corr = Tr<T>::cx ? (cls == 0 && k == K_NLMS) : ((cls == 0 && k == K_LMS) || (cls == 5 && k == K_RLS));
+            long_call<T>(top, Kind(k), corr && k == K_RLS ? 2 : corr ? 8 : L, long_size(top, cls), corr ? n % 4 : n % 8, corr ? 2 : -1, (n + Tr<T>::cx) % 2 == 0);
+            ++n;
+        }
+}
+
 // ------------------------------------------------------------------------------------------------ convergence (system identification)
-template<class T> static void convergence_case(vh::Rng& top, Kind k, int L, double par1, double par2, int corr_mode) {
+// sx: absolute scale of the white input, hs: scale of the unknown system (for RLS par2 is the diagonal load x sx^2)
+template<class T> static void convergence_case(vh::Rng& top, Kind k, int L, double par1, double par2, int corr_mode, double sx = 1, double hs = 1) {
     const uint64_t cseed = top.next();
     vh::Rng r(cseed);
     Params p;
@@ -435,19 +867,22 @@ template<class T> static void convergence_case(vh::Rng& top, Kind k, int L, doub
         N = (long long)(3 * 13.8 * L / (p.mu * (2 - p.mu))) + 50;
     } else {
         p.lam = par1;
-        p.delta = par2;
+        p.delta = par2 / (sx * sx);
         // regularisation lam^k / delta against the data term sum_{i<k} lam^i (unit input power): relative bias
         // (lam^k/delta) / sum lam^i must fall below 1e-3 (squared: 1e-6); x10 margin, at least 6 L + 40 samples
         N = 6 * L + 40;
         for (long long kk = 1;; ++kk) {
-            const double reg = std::pow(p.lam, (double)kk) / p.delta;
+            const double reg = std::pow(p.lam, (double)kk) / par2;
             const double dat = p.lam < 1 ? (1 - std::pow(p.lam, (double)kk)) / (1 - p.lam) : (double)kk;
             if (reg / dat < 1e-3 / 10) { N = std::max<long long>(N, kk + 4 * L); break; }
         }
     }
     int msys;
     std::vector<LC> h = gen_system<T>(r, L, msys);
-    const std::string js0 = pjson(p, Tr<T>::cx, cseed) + ",\"scenario\":\"convergence\",\"system_len\":" + std::to_string(msys) + ",\"samples\":" + std::to_string(N);
+    if (hs != 1) for (auto& v : h) v *= LD(hs);
+    if (sx != 1 || hs != 1) out.stat("conv_scaled");
+    const std::string js0 = pjson(p, Tr<T>::cx, cseed) + ",\"scenario\":\"convergence\",\"system_len\":" + std::to_string(msys) + ",\"samples\":" + std::to_string(N) +
+                            ",\"input_scale\":" + vh::jnum(sx) + ",\"system_scale\":" + vh::jnum(hs);
     vh::set_current(std::string("C12:hang-or-crash:") + KN[k], js0 + "}");
     vh::watch(600);
     Impl<T> f(p);
@@ -463,6 +898,7 @@ template<class T> static void convergence_case(vh::Rng& top, Kind k, int L, doub
         F.d = base_array<T>(n);
         for (int i = 0; i < n; ++i) {
             T v; rnd(r, v);
+            if (sx != 1) scl(v, sx);
             F.x[i] = v;
             hist[pos % L] = toL(v);
             LC dv(0);
@@ -516,6 +952,15 @@ template<class T> static void convergence(vh::Rng& top, bool thorough) {
             if (lam > 0.9995 && dl < 1 && L > 8) continue;
             convergence_case<T>(top, K_RLS, L, lam, dl, -1);
         }
+    }
+    // the same at other absolute scales: x -> sx x, system -> hs system (NLMS: input power far above eps(); RLS: diagonal load / sx^2)
+    static const double SXN[] = {1e-4, 1e8, 1e100}, SXR[] = {1e-100, 1e-8, 1e8, 1e100}, HSC[] = {1e-8, 1.0, 1e8};
+    for (int L : thorough ? Ls : std::vector<int>{2, 16}) {
+        for (double sx : SXN)
+            for (int t = 0; t < (thorough ? 3 : 1); ++t) convergence_case<T>(top, K_NLMS, L, NLMS_MU[2 + top.range(0, 4)], 0, -1, sx, HSC[top.range(0, 2)]);
+        for (double sx : SXR)
+            for (int t = 0; t < (thorough ? 3 : 1); ++t)
+                convergence_case<T>(top, K_RLS, L, LAMS[top.range(0, 4)], DELTAS[top.range(1, 6)], -1, sx, HSC[top.range(0, 2)]);
     }
 }
 
@@ -670,10 +1115,22 @@ int main(int argc, char** argv) {
     boundary<real_t>(top);
     boundary<cmplx_t>(top);
     // arbitrary pairs on short horizons: small lengths densely, the whole 2..64 range
-    arbitrary_pairs<real_t>(top, a.thorough ? 6000 : 240, 8, a.thorough ? 15 : 3);
-    arbitrary_pairs<cmplx_t>(top, a.thorough ? 6000 : 240, 8, a.thorough ? 15 : 3);
-    arbitrary_pairs<real_t>(top, a.thorough ? 3600 : 150, 64, a.thorough ? 30 : 6);
-    arbitrary_pairs<cmplx_t>(top, a.thorough ? 3600 : 150, 64, a.thorough ? 30 : 6);
+    // (the filter kind is it % 3: the CORR stride must be coprime to 3 so that LMS, NLMS and RLS scenarios all reach the model)
+    arbitrary_pairs<real_t>(top, a.thorough ? 6000 : 240, 8, a.thorough ? 16 : 4);
+    arbitrary_pairs<cmplx_t>(top, a.thorough ? 6000 : 240, 8, a.thorough ? 16 : 4);
+    arbitrary_pairs<real_t>(top, a.thorough ? 3600 : 150, 64, a.thorough ? 31 : 7);
+    arbitrary_pairs<cmplx_t>(top, a.thorough ? 3600 : 150, 64, a.thorough ? 31 : 7);
+    // scale classes of inputs and parameters, exact-zero / negative-zero runs, denormals, rejected calls in the histories
+    scaled_pairs<real_t>(top, a.thorough ? 6000 : 240, 8, a.thorough ? 16 : 2);
+    scaled_pairs<cmplx_t>(top, a.thorough ? 6000 : 240, 8, a.thorough ? 16 : 2);
+    scaled_pairs<real_t>(top, a.thorough ? 2400 : 90, 64, a.thorough ? 31 : 4);
+    scaled_pairs<cmplx_t>(top, a.thorough ? 2400 : 90, 64, a.thorough ? 31 : 4);
+    // copies taken mid-stream
+    copy_cases<real_t>(top, a.thorough ? 1200 : 60);
+    copy_cases<cmplx_t>(top, a.thorough ? 1200 : 60);
+    // single calls longer than 2^16 / 2^17 / 2^18 samples
+    long_calls<real_t>(top, a.thorough, a.seed);
+    long_calls<cmplx_t>(top, a.thorough, a.seed);
     // real RLS against the batch normal equations
     for (int i = 0; i < (a.thorough ? 5000 : 200); ++i) rls_wls_case(top, i % 3 == 0 ? 64 : 12, false);
     // convergence
